@@ -6,15 +6,19 @@ from .pipeline import *
 
 class StepAuthorization(PipelineBase):
     name='C02.step_authorization'
-    def __init__(self,nfun=2,nsig=1,unknown_pubkey=False,two_steps=False,same_name=False,**kw):
+    def __init__(self,nfun=2,nsig=1,unknown_pubkey=False,two_steps=False,same_name=False,small=False,**kw):
         PipelineBase.__init__(self,**kw)
-        self.nfun=nfun; self.nsig=nsig; self.unknown_pubkey=unknown_pubkey; self.two_steps=two_steps or same_name; self.same_name=same_name
+        self.nfun=nfun; self.nsig=nsig; self.unknown_pubkey=unknown_pubkey; self.two_steps=two_steps or same_name; self.same_name=same_name; self.small=small
         if same_name: self.name='C02.step_authorization_duplicate_step_names'
+        if small:
+            self.name='C02.two_steps_small'; self.hash_order='fixed'
         self.bounds={'steps':('2 with the same name (sharing their link files), adjacent or separated by a third step' if same_name else (2 if two_steps else 1)),'functionary_pool':nfun,'threshold':'any u32 per step','layout_key_table':'any subset of the pool',
                      'step_pubkeys':'any subset of the pool'+(' + an id absent from the table' if unknown_pubkey else ''),
                      'files_per_step':'per pool key: absent or one link filed under that key-id prefix','signatures_per_link':'1..%d, each labelled with any pool key, free made_by/intact/over'%nsig,
                      'hash_map_iteration':'every permutation','owner_signature':'valid (C01 varies it)','clock':'unexpired (C06 varies it)'}
+        if small: self.bounds.update({'layout_key_table':'the whole pool','files_per_step':'per pool key absent or one link, filed under and labelled with that key','hash_map_iteration':'insertion order (the other C02 obligations vary it)'})
         self.witnesses=['ok_thr1','ok_thr2','err_threshold_unmet','err_missing_links'] if not same_name else ['err_threshold_unmet']
+        if small: self.witnesses=['ok_thr1','err_threshold_unmet']
     def mk_args(self,run):
         nfun=self.nfun; OWNER=nfun
         steps=[]; dirs={():[]}; info=[]
@@ -31,7 +35,7 @@ class StepAuthorization(PipelineBase):
                 ns=1+run.pick(self.nsig,'nsig%d_%d'%(si,k))
                 sigs=[]
                 for j in range(ns):
-                    lab=run.pick(nfun,'lab%d_%d_%d'%(si,k,j))
+                    lab=k if self.small else run.pick(nfun,'lab%d_%d_%d'%(si,k,j))
                     mb=z3.BitVec('mb_%d_%d_%d'%(si,k,j),8); run.add(z3.ULE(mb,nfun))
                     sigs.append(SigD(lab,mb,z3.Bool('in_%d_%d_%d'%(si,k,j)),z3.Bool('ov_%d_%d_%d'%(si,k,j))))
                 fd=FileD(sname,k,BlockD('link',LinkD(sname,{'a':1},{'b':2}),sigs))
@@ -41,7 +45,7 @@ class StepAuthorization(PipelineBase):
             # the two namesakes need not be neighbours in the list
             steps=[steps[0],StepD('mid',1,[0]),steps[1]]
             dirs[()].append(FileD('mid',0,BlockD('link',LinkD('mid',{'a':1},{'b':2}),[SigD(0,0)])))      # the step in between is satisfied whenever key 0 is in the table
-        keys=[k for k in range(nfun) if run.pick(2,'key%d'%k)]
+        keys=list(range(nfun)) if self.small else [k for k in range(nfun) if run.pick(2,'key%d'%k)]
         ld=LayoutD(keys,steps)
         lb=BlockD('layout',ld,[SigD(OWNER,OWNER)])
         caller=[(OWNER,OWNER)]
